@@ -212,6 +212,10 @@ def run(ctx):
             ctx.sample({"history_steps_18_26": [[str(x) for x in op] for op in hist[18:26]]})
     ctx.count("fingerprint comparisons", mon.n_checks)
     ctx.notes["monitor"] = {"fingerprint_and_pair_checks": mon.n_checks}
+    # thorough tier: the repository's own tests as a workload under the global monitors (vp/suite_workload.py)
+    from .. import suite_workload
+
+    suite_workload.run(ctx, "C07")
     ctx.inconclusive_if(probe.COUNTS["Quantity.__init__"] == 0, "Quantity.__init__ probe never fired")
     ctx.inconclusive_if(mon.n_checks < 1000, "monitor made only %d comparisons" % mon.n_checks)
 
